@@ -488,7 +488,7 @@ Section InitEq.
     { intros E. rewrite E in Hchl. destruct gridT; [contradiction|discriminate]. }
     destruct bunch.
     - assert (Eidx : frd_cy (Z.of_nat (length mods)) ch = frd_py (Z.of_nat (length mods)) ch).
-      { apply find_row_differences_eq; [lia|rewrite Nat2Z.id; exact Hchr|left; exact Hchne]. }
+      { apply find_row_differences_eq; [lia|rewrite Nat2Z.id; exact Hchr]. }
       destruct (frd_cy_shape (Z.of_nat (length mods)) ch Hchne) as (ps & Eps & Hc).
       rewrite <- Eidx, Eps, Hchl in *.
       rewrite (qi_eq junk ps (length gridT) Hc).
